@@ -4,6 +4,7 @@ import (
 	"fmt"
 	"go/token"
 	"go/types"
+	"os"
 	"sort"
 	"strings"
 
@@ -29,7 +30,8 @@ func clusterFns(w *load.World) []*ssa.Function {
 func findFn(w *load.World, key string) *ssa.Function {
 	for _, f := range w.Fns {
 		if load.FnKey(f) == key {
-			return f
+			// a method that only takes a lock and delegates: the rules want the body
+			return unwrapThin(f)
 		}
 	}
 	return nil
@@ -411,10 +413,24 @@ func Purity(w *load.World, c *core.Collector) {
 						if wr == recv && strings.HasPrefix(wn, "Write") {
 							inputs = append(inputs, wc.Call.Args[1:]...)
 						}
+					} else if g := wc.Call.StaticCallee(); g != nil && len(wc.Call.Args) > 1 {
+						// io.WriteString(digest, s), fmt.Fprint(digest, ...): the digest as a writer
+						switch g.String() {
+						case "io.WriteString", "fmt.Fprint", "fmt.Fprintf", "fmt.Fprintln", "io.Copy":
+							if peelIface(wc.Call.Args[0]) == peelIface(recv) {
+								inputs = append(inputs, wc.Call.Args[1:]...)
+							}
+						}
 					}
 					if wr == recv && wn == "Reset" && inLoop(bb) {
 						reset = true
 					}
+				}
+			}
+			if os.Getenv("SEMA_DEBUG") != "" {
+				fmt.Fprintf(os.Stderr, "PURITY streaming: recv=%v inputs=%d\n", recv, len(inputs))
+				for _, iv := range inputs {
+					fmt.Fprintf(os.Stderr, "  input %v %v\n", iv, ssax.Prov(iv).Keys())
 				}
 			}
 			o := ssax.Origins{}
@@ -528,17 +544,34 @@ func Route(w *load.World, c *core.Collector) {
 		}
 		// guard and confinement
 		var guardBlk *ssa.BasicBlock
+		remoteEdge := 0 // successor taken when Dest != MyHostname
 		for _, b := range m.Blocks {
 			if ifi, ok := b.Instrs[len(b.Instrs)-1].(*ssa.If); ok {
-				if bo, ok := ifi.Cond.(*ssa.BinOp); ok && bo.Op == token.NEQ {
+				// the comparison itself, or a predicate helper that makes it
+				if bo, neg, ok := condBinOp(ifi.Cond, 0); ok && (bo.Op == token.NEQ || bo.Op == token.EQL) {
 					ox, oy := ssax.Prov(bo.X), ssax.Prov(bo.Y)
-					if (ox["field:Dest"] && oy["field:MyHostname"]) || (oy["field:Dest"] && ox["field:MyHostname"]) {
+					isDest := func(o ssax.Origins) bool {
+						if o["field:Dest"] {
+							return true
+						}
+						for k := range o {
+							if strings.HasSuffix(k, ".Destination") {
+								return true
+							}
+						}
+						return false
+					}
+					if (isDest(ox) && oy["field:MyHostname"]) || (isDest(oy) && ox["field:MyHostname"]) {
 						guardBlk = b
+						remoteEdge = 0
+						if (bo.Op == token.EQL) != neg {
+							remoteEdge = 1
+						}
 					}
 				}
 			}
 		}
-		if guardBlk == nil || !ssax.OnlyViaEdge(guardBlk, 0, route.Block()) {
+		if guardBlk == nil || !ssax.OnlyViaEdge(guardBlk, remoteEdge, route.Block()) {
 			probs = append(probs, "forwarding is not guarded by Dest != MyHostname")
 		} else {
 			// local effects (storage / shard manager) only on the equal edge
@@ -555,7 +588,7 @@ func Route(w *load.World, c *core.Collector) {
 					if g := call.Call.StaticCallee(); g != nil && (strings.Contains(g.String(), "ShardManager)") || strings.HasPrefix(g.String(), "os.")) {
 						local = true
 					}
-					if local && !ssax.OnlyViaEdge(guardBlk, 1, b) {
+					if local && !ssax.OnlyViaEdge(guardBlk, 1-remoteEdge, b) {
 						probs = append(probs, "local effect at "+w.At(in)+" is not confined to the destination server")
 					}
 				}
@@ -1397,20 +1430,61 @@ func Quota(w *load.World, c *core.Collector) {
 		c.Add("QUOTA", "anchor:GetShardsInfo", core.Undecided, "", "ClusterNode.GetShardsInfo not found", props...)
 	} else {
 		var rpc *ssa.Call
-		for _, b := range g.Blocks {
-			for _, in := range b.Instrs {
-				if call, ok := in.(*ssa.Call); ok && call.Call.StaticCallee() != nil && load.FnKey(call.Call.StaticCallee()) == "(*cluster.ClusterNode).RPCGetShardInfo" {
-					rpc = call
+		var rpcErr ssa.Value
+		callsInfo := func(fn *ssa.Function) *ssa.Call {
+			for _, b := range fn.Blocks {
+				for _, in := range b.Instrs {
+					if call, ok := in.(*ssa.Call); ok && call.Call.StaticCallee() != nil && load.FnKey(call.Call.StaticCallee()) == "(*cluster.ClusterNode).RPCGetShardInfo" {
+						return call
+					}
+				}
+			}
+			return nil
+		}
+		if rpc = callsInfo(g); rpc != nil {
+			rpcErr = rpc
+		} else {
+			// through a helper that makes the call for one shard and hands its error back
+			for _, b := range g.Blocks {
+				for _, in := range b.Instrs {
+					call, ok := in.(*ssa.Call)
+					if !ok {
+						continue
+					}
+					h := ssax.StaticModuleCallee(in)
+					if h == nil || len(h.Blocks) == 0 {
+						continue
+					}
+					inner := callsInfo(h)
+					if inner == nil {
+						continue
+					}
+					// every failure of the inner call makes the helper return a non-nil error
+					innerFailed, _ := ssax.NilTests(h, inner)
+					okAll := len(innerFailed) > 0
+					for _, e := range innerFailed {
+						if !failEdgeReturnsError(h, e) {
+							okAll = false
+						}
+					}
+					if !okAll {
+						continue
+					}
+					sig := call.Call.Signature()
+					if n := sig.Results().Len(); n > 0 && isErrorType(sig.Results().At(n-1).Type()) {
+						rpc = call
+						rpcErr = resultValue(call, n-1)
+					}
 				}
 			}
 		}
-		if rpc == nil {
+		if rpc == nil || rpcErr == nil {
 			c.Add("QUOTA", "shard-infos-all-or-error", core.Undecided, w.Position(g.Pos()), "the per-shard info call was not found", props...)
 		} else {
-			failed, _ := ssax.NilTests(g, rpc)
+			failed, _ := ssax.NilTests(g, rpcErr)
 			// through a variable: the test may be on a phi / load fed by the call
 			if len(failed) == 0 {
-				for _, r := range *rpc.Referrers() {
+				for _, r := range *rpcErr.Referrers() {
 					if phi, ok := r.(*ssa.Phi); ok {
 						f2, _ := ssax.NilTests(g, phi)
 						failed = append(failed, f2...)
@@ -2091,4 +2165,42 @@ func isEmptyBytes(v ssa.Value) bool {
 		}
 	}
 	return false
+}
+
+// condBinOp: the comparison a branch condition stands for: the condition itself,
+// its negation, or the result of a module predicate helper that returns such a
+// comparison (seen in the helper's own terms). neg reports an odd number of
+// negations on the way.
+func condBinOp(v ssa.Value, depth int) (bo *ssa.BinOp, neg bool, ok bool) {
+	if depth > 3 {
+		return nil, false, false
+	}
+	switch x := v.(type) {
+	case *ssa.BinOp:
+		return x, false, true
+	case *ssa.UnOp:
+		if x.Op == token.NOT {
+			b, n, ok := condBinOp(x.X, depth+1)
+			return b, !n, ok
+		}
+	case *ssa.Call:
+		g := x.Call.StaticCallee()
+		if g == nil || !ssax.InModule(g) || len(g.Blocks) == 0 {
+			return nil, false, false
+		}
+		var ret *ssa.Return
+		for _, b := range g.Blocks {
+			if r, ok := b.Instrs[len(b.Instrs)-1].(*ssa.Return); ok {
+				if ret != nil {
+					return nil, false, false
+				}
+				ret = r
+			}
+		}
+		if ret == nil || len(ret.Results) != 1 {
+			return nil, false, false
+		}
+		return condBinOp(ret.Results[0], depth+1)
+	}
+	return nil, false, false
 }
